@@ -372,3 +372,4 @@ from props_attr import *     # noqa  (registers C01, C05, C08, C12, C14)
 from props_solver import *   # noqa  (registers C09, C10, C11)
 from props_control import *  # noqa  (registers C06, C07)
 from props_hist2 import *    # noqa  (registers C13, C15, C16)
+from props_meta import *     # noqa  (registers C17, C18, C19)
